@@ -408,3 +408,89 @@ def window_params(r):
     m0, m1, m2 = r.uniform(0.8, 1.0), r.uniform(-0.5, 0.8), r.uniform(-0.5, 0.5)
     t1 = m0 + m1 + m2
     return "deton", [vJ, t1 * r.choice((0.8, 0.95, 1.02, 1.2, 1.5)), m0, m1, m2, r.uniform(0.05, 0.95)]
+
+
+# ---------------------------------------------------------------- findvwLTE decision logic (Model.LTE)
+
+def scripted_lte(Tn, vMin, vJ, p0, p1, t0, t1, fa, s0, s1, s2, q0, q1, eps_sign=1.0):
+    """Runs the REAL Hydrodynamics.findvwLTE on an object whose physics (matchDeflagOrHyb, solveHydroShock, csqHighT) are closed-form stubs
+    and whose root_scalar is a 50-step bisection that raises ValueError without a sign change (installed from outside).
+    Returns (line Driver/LTEF prints, sqrtCs handed to the driver)."""
+    from types import SimpleNamespace
+    import WallGo.hydrodynamics as H
+    h = H.Hydrodynamics.__new__(H.Hydrodynamics)
+    h.vJ, h.vMin, h.Tnucl, h.atol, h.rtol, h.vBracketLow = vJ, vMin, Tn, 1e-10, 1e-6, 1e-3
+    h.thermodynamics = SimpleNamespace(csqHighT=lambda T: q0 + q1 * T, csqLowT=lambda T: 0.8 * q0 - 0.3 * q1 * T)
+    h.template = SimpleNamespace(epsilon=eps_sign * 0.1, vJ=vJ, vMin=vMin, alN=0.1, psiN=0.9, cb2=0.3, cs2=0.3)
+
+    def match(vw, vp=None):
+        h.success = not (fa < vw)
+        return (p0 + p1 * vw, "vm", t0 + t1 * vw, "Tm")
+    h.matchDeflagOrHyb = match
+    h.solveHydroShock = lambda vw, vp, Tp: s0 * Tp + s1 * vw + s2 * vp
+    brackets = []
+
+    def root_scalar(f, bracket=None, **kw):
+        a, b = bracket
+        brackets.append((a, b))
+        lo, hi = a, b
+        flo = f(lo)
+        if len(brackets) == 1 and first_is_shock[0] and flo * f(hi) > 0:
+            raise ValueError("f(a) and f(b) must have different signs")
+        for _ in range(50):
+            mid = lo + 0.5 * (hi - lo)
+            fm = f(mid)
+            if flo * fm <= 0.0:
+                hi = mid
+            else:
+                lo, flo = mid, fm
+        return SimpleNamespace(root=lo + 0.5 * (hi - lo), converged=True)
+    # the first root_scalar call is the shock one exactly when shock(vJ - 1e-10) > 0
+    vp_, Tp_ = p0 + p1 * (vJ - 1e-10), t0 + t1 * (vJ - 1e-10)
+    first_is_shock = [vp_ * (vJ - 1e-10) - (q0 + q1 * Tp_) > 0]
+    saved = H.root_scalar
+    H.root_scalar = root_scalar
+    try:
+        out = H.Hydrodynamics.findvwLTE(h)
+    finally:
+        H.root_scalar = saved
+    sq = (q0 + q1 * Tn) ** 0.5
+    final = brackets[-1] if brackets and not (first_is_shock[0] and len(brackets) == 1) else None
+    if final is not None:
+        return f"root {C.f2b(float(final[0]))} {C.f2b(float(final[1]))} {C.f2b(float(out))}", sq
+    return ("runaway" if out == 1 else "static" if out == 0 else f"value {out}"), sq
+
+
+def lte_params(r):
+    Tn = 10 ** r.uniform(-1, 1)
+    vJ = r.uniform(0.6, 0.95)
+    vMin = r.choice((1e-3, r.uniform(0.01, 0.4)))
+    q0, q1 = r.uniform(0.2, 0.34), r.uniform(-0.05, 0.05) / Tn          # sound speed depends on the temperature in front of the wall
+    t0, t1 = Tn * r.uniform(1.0, 1.2), Tn * r.uniform(0.0, 0.8)          # T+(vw) > Tn
+    style = r.choice(("shock-ahead", "shock-ahead", "shock-root", "shock-root", "no-shock"))
+    if style == "shock-ahead":        # vp*vw < cs^2 even at vJ
+        p1 = r.uniform(0.1, 0.3)
+        p0 = r.uniform(0.0, 0.05)
+    elif style == "shock-root":       # vp*vw crosses cs^2 between cs(Tn) and vJ
+        p1 = r.uniform(0.5, 1.0)
+        p0 = r.uniform(0.0, 0.1)
+    else:                             # vp*vw > cs^2 on the whole bracket
+        p0, p1 = r.uniform(0.7, 0.9), r.uniform(0.0, 0.2)
+    fa = r.choice((2.0, 2.0, r.uniform(0.3, 1.0)))                        # matchings above `fa` report "not converged"
+    kind = r.choice(("interior", "interior", "runaway", "static", "random"))
+    # shockTnuclDiff(v) = s0*Tp(v) + s1*v + s2*vp(v) - Tn is linear in v: A*(vroot - v) with A > 0 (driving below the root, stopping above)
+    A = r.uniform(0.05, 2.0) * Tn
+    s2 = r.uniform(-0.3, 0.3) * Tn
+    if kind == "interior":
+        vroot = r.uniform(vMin, vJ)
+    elif kind == "runaway":
+        vroot = vJ + r.uniform(0.0, 0.5)
+    elif kind == "static":
+        vroot = vMin * r.uniform(0.0, 1.0)
+    else:
+        vroot = r.uniform(-0.2, 1.2)
+        A = A * r.choice((1.0, -1.0))
+    s0 = (Tn + A * vroot - s2 * p0) / t0
+    s1 = -A - s0 * t1 - s2 * p1
+    # the sign of the template-fit vacuum energy is not an input of the LTE condition: vary it
+    return f"{style}/{kind}", (Tn, vMin, vJ, p0, p1, t0, t1, fa, s0, s1, s2, q0, q1, r.choice((1.0, 1.0, -1.0)))
